@@ -150,6 +150,13 @@ def _gen_archive(rng, tier):
     return {"spec": spec, "corrupt": corrupt, "path": rng.choice(["A", "dir/B", "/abs/C", "Ünï"]) + archgen.ext_of(fmt)}
 
 
+def classify_harness(rec, payload):
+    """a run that had to be killed (wall cap) says nothing about this property: termination is C01's"""
+    if rec.get("_harness") == "timeout" or (rec.get("_harness") == "crash" and rec.get("signal") in (9, 24)):
+        return {"ignore": True, "reason": "killed_by_budget_termination_is_C01"}
+    return None
+
+
 def gen_case(rng: random.Random, tier: str) -> dict:
     archives = [_gen_archive(rng, tier) for _ in range(rng.choice([1, 1, 1, 2, 3]))]
     # shared base names across archives of one history (per-process caches keyed by name must not leak between archives)
